@@ -90,14 +90,17 @@ def checkSplit (op : SplitOp) (rs : List OutReq) : Option String :=
   let fr := targetFraming op.target
   let fc := targetFC op.target
   let kind := op.fields.filter fun f => f.isCoil == coils
-  let allNames := rs.flatMap (·.names)
-  let find (n : String) : Option Field := op.fields.find? (·.name == n)
+  -- names identify a field among the fields of ITS device: the same name may be used on several devices
+  let allKeys := rs.flatMap fun r => r.names.map fun n => (n, r.server, r.unit)
+  let findIn (r : OutReq) (n : String) : Option Field :=
+    (op.fields.find? fun f => f.name == n && f.server == r.server && f.unit.toNat == r.unit).orElse
+      fun _ => op.fields.find? (·.name == n)
   -- (1) every field of the kind exactly once, (9) nothing else
-  if !(kind.all fun f => (allNames.filter (· == f.name)).length == 1) then some "(1) a field of the requested kind is missing or duplicated"
-  else if !(allNames.all fun n => (kind.any (·.name == n))) then some "(9) a field of the other kind (or unknown) appears"
+  if !(kind.all fun f => (allKeys.filter (· == (f.name, f.server, f.unit.toNat))).length == 1) then some "(1) a field of the requested kind is missing or duplicated"
+  else if !(allKeys.all fun k => (kind.any fun f => (f.name, f.server, f.unit.toNat) == k)) then some "(9) a field of the other kind (or unknown) appears"
   else
   rs.findSome? fun r =>
-    let fs := r.names.filterMap find
+    let fs := r.names.filterMap (findIn r)
     if r.names.isEmpty then some "(7) empty request"
     else if !(fs.all fun f => f.server == r.server && f.unit.toNat == r.unit) then some "(2) request targets another server/unit than its field"
     else if !(fs.all fun f => r.start ≤ f.addr.toNat && f.addr.toNat + f.size ≤ r.start + r.qty) then some "(3) field span outside the request window"
